@@ -5,3 +5,5 @@ package c05
 const netconfHookAvailable = false
 
 func setNetconfHook(_ func(string)) {}
+
+func setChannelHook(_ func(string)) {}
